@@ -508,7 +508,44 @@ func isXMLSanitiser(p *Program, f *ssa.Function) bool {
 		}
 	})
 	_ = replOnly
-	return esc
+	if !esc {
+		return false
+	}
+	// total: every value the function returns is a constant or comes out of the buffer that
+	// EscapeText filled — never (a transformation of) the raw argument.  A "fast path" that
+	// returns the argument unchanged when it contains none of & < > " ' lets control characters,
+	// which only EscapeText replaces, straight through.
+	for _, ret := range returnsOf(f) {
+		for _, rv := range ret.Results {
+			if !isStringType(rv.Type()) {
+				continue
+			}
+			if _, isConst := stripConv(rv).(*ssa.Const); isConst {
+				continue
+			}
+			fromParam := false
+			for rt := range rootsOf(stripConv(rv)) {
+				if _, ok := rt.(*ssa.Parameter); ok {
+					fromParam = true
+				}
+			}
+			// rootsOf of `buf.String()` is the call itself; a returned parameter (or slice/concat of it) is not
+			if par, ok := stripConv(rv).(*ssa.Parameter); ok && par != nil {
+				fromParam = true
+			}
+			if ph, ok := stripConv(rv).(*ssa.Phi); ok {
+				for _, e := range ph.Edges {
+					if _, ok := stripConv(e).(*ssa.Parameter); ok {
+						fromParam = true
+					}
+				}
+			}
+			if fromParam {
+				return false
+			}
+		}
+	}
+	return true
 }
 
 func ruleRawXML(r *Run) { rawXML(r, true) }
